@@ -18,12 +18,14 @@ def rules(t):
             others = [tgt for v, tgt in br["targets"].items() if names.get(v) != "Unordered"] + ([br["otherwise"]] if "Unordered" in [names.get(v) for v in br["targets"]] else [])
             if tgts: unordered_region = pm.reachable_from(tgts) - set().union(*[pm.reachable_from([o]) for o in others if o not in tgts]) if others else pm.reachable_from(tgts)
     ins = [g for g in t.effects("messages", {"insert"}, pm) if "VacantEntry" not in callee_name(g.node) and (unordered_region is None or g.bb in unordered_region)]
+    # an entry-API insertion in the unordered arm stores a message as well: absence from `messages` says nothing about an id that was already delivered
+    if unordered_region is not None: ins += [g for g in t.calls(r"VacantEntry.*::insert$", pm) if g.bb in unordered_region]
     rec = list(t.effects("received_messages", {"insert"}, pm))
     for g in ins:
         r.site(g)
         ok = any(t.rooted_at_field(br["cond"][2][0], "received_messages") and t.edge_dominates(pm, br["f_edge"], g.bb) for br in t.find_callcond(pm, r"BTreeSet.*::contains$"))
         if not ok: r.bad("guard", g, "unordered message buffered without the received_messages test")
-        if not any(same(t.arg(x, 1), t.arg(g, 1)) and (pm.dominates(x.bb, g.bb) or pm.dominates(g.bb, x.bb)) for x in rec): r.bad("record", g, "buffered id is not recorded in received_messages")
+        if "VacantEntry" not in callee_name(g.node) and not any(same(t.arg(x, 1), t.arg(g, 1)) and (pm.dominates(x.bb, g.bb) or pm.dominates(g.bb, x.bb)) for x in rec): r.bad("record", g, "buffered id is not recorded in received_messages")
     for x in rec: r.site(x)
     out.append(r)
     r = RuleResult("C02.b", "SIBLING dedupe before reserving reassembly state (shared with C09.c)", floor=1)
